@@ -484,10 +484,14 @@ func init() {
 			Assumptions: []string{
 				"timeouts are read-delay multiples plus 500ns so a deadline never ties with a poll wake-up",
 				"recovery clause checked only when the device is at a clean command prompt when the timed-out call returns",
-				"NETCONF and in-channel authentication operations are covered by the C05 legs added with those peers (see evidence components)",
+				"leg N runs the same enumeration over NETCONF sessions (Open and every RPC kind; scenario family C05N); in-channel authentication under stall is exercised by C10's stall sub-runs",
 			},
 			QuickRuns: 64,
 			ThoroughS: 600,
+			Legs: []Leg{
+				{Name: "D", QuickRuns: 64, Share: 0.7},
+				{Name: "N", Prop: "C05N", QuickRuns: 24, Share: 0.3},
+			},
 		},
 		Gen:    genC05,
 		New:    func() Scenario { return &Session{} },
